@@ -36,6 +36,9 @@ class Pool:
             dt = float(rng.choice([1e-3, 2e-3, 4e-3]))
             K = int(rng.integers(0, 3))
             S = int(np.ceil((K + 2) * diag / c / dt)) + int(rng.integers(2, 6))
+            if k == 2:
+                # a histogram shorter than the first arrival at the farthest patches
+                S = max(2, int(float(rng.uniform(0.15, 0.6)) * diag / c / dt))
             self.pars['p%d' % k] = (c, dt, (S + 0.5) * dt, K)
         self.recv = scenes.gen_point_inside(rng, self.sides)
         self.freqs = scenes.FREQS[:self.B]
@@ -76,9 +79,15 @@ def gen_history(rng, pool, with_restore=True, n_cycles=None):
     for _ in range(n_cycles):
         src = 's%d' % int(rng.integers(0, 3))
         ops += [('I', src)] * int(rng.choice([1, 1, 2]))
-        for _ in range(int(rng.choice([1, 1, 2]))):
-            p = 'p%d' % int(rng.integers(0, 3))
-            ops.append(('X', p, 1))
+        if rng.random() < 0.5:
+            # change duration with recalculate=True: first a histogram shorter than the first
+            # arrival at the farthest patches (p2), then a long one, without re-sourcing
+            ops.append(('X', 'p2', 1))
+            ops.append(('X', 'p%d' % int(rng.integers(0, 2)), 1))
+        else:
+            for _ in range(int(rng.choice([1, 1, 2]))):
+                p = 'p%d' % int(rng.integers(0, 3))
+                ops.append(('X', p, 1))
     if with_restore:
         for _ in range(int(rng.integers(0, 3))):
             ops.insert(int(rng.integers(0, len(ops) + 1)), ('R', str(rng.choice(['dict', 'file']))))
